@@ -173,9 +173,13 @@ def scenarios(thorough):
         sc_packages("pk3", "([1P] O [2P]) U [3P]", {"1P": "[1]", "2P": "[2] U [3]", "3P": "[4][901]"}),
         sc_packages("pkdup", "[1P] U [2P] O [1P] U [3P]", {"1P": "[1] O [5]", "2P": "[2]", "3P": "[UB1]"}),
         sc_packages("pkroot", "[7P]", {"7P": "[1] U [2]"}),
+        # occurrences on different levels of the tree with the deeper ones on the RIGHT (tree walks that differ in order - top-down / bottom-up - disagree here)
+        sc_packages("pkright", "[1P] O [2P] U [3P]", {"1P": "[1]", "2P": "[2]", "3P": "[3] X [4]"}),
+        sc_packages("pkdeep", "[1P] X ([2P] O ([3P] U [4P] U [1P]))", {"1P": "[1]", "2P": "[2][901]", "3P": "[3]", "4P": "[4] O [5]"}),
         sc_packages("pkxxy", "[1P] U [1P] U [2P] O [3P]", {"1P": "[1]", "2P": "[2] X [3]", "3P": "[4]"}),
         sc_requirement("rc10", "([1] U [2]) O ([3] U [4]) O ([5] U [6]) O ([7] U [8]) O ([9] U [10])",
                        {1: "F", 2: "F", 3: "U", 4: "F", 5: "F", 6: "U", 7: "K", 8: "U", 9: "U", 10: "U"}),
+        sc_ahb("ahbpkright", "Muss [4] O [1P] U [2P] Soll [3P]", {1: "U", 2: "F", 3: "F", 4: "U"}, text="z3", packages={"1P": "[1]", "2P": "[2]", "3P": "[3]"}),
         sc_ahb("ahbpk", "Muss [1P] U [4] Soll [2P][902]", {1: "U", 2: "F", 4: "F"}, text="z2", packages={"1P": "[1]", "2P": "[2] U [501]"}),
         sc_gather_if_necessary("gin"),
         sc_validity("valid1h", "Kann [1] U [501]"),
@@ -200,7 +204,7 @@ def run():
     import ahb
     ahb.configure()
     for i, sc in enumerate(scenarios(thorough)):
-        A.check_scenario(sc, res, work, rng, max_all=(3000 if thorough else 300), extra_random=(300 if thorough else 25), sensitivity=({4: [("completion_order", "copy", "Assoc")], 14: [("positional", "shared", "OwnContext")]}.get(i)))
+        A.check_scenario(sc, res, work, rng, max_all=(3000 if thorough else 300), extra_random=(300 if thorough else 25), sensitivity=({"ahb2": [("completion_order", "copy", "Assoc")], "validfc": [("positional", "shared", "OwnContext")]}.get(sc.name)))
     bad = [s for s in res.coverage.get("sensitivity", []) if s["violated"] != s["expected_to_violate"]]
     if bad:
         from common import MachineryError
